@@ -35,6 +35,37 @@ static void configure(long code, char *desc, size_t n)
     snprintf(desc, n, "hist=%d sync=%d emcy=%d hbc=%d hbprod=%d sdo=%d csdo=%d rpdo0=%d rpdo1=%d tpdo0=%d tpdo1=%d freq=%u", d[0], d[1], d[2], d[3], d[4], d[5], d[6], d[7], d[8], d[9], d[10], NC.freq);
 }
 
+/* ---- wide mapping records (cfg 16..19): the mapping record of TPDO 0 or RPDO 0 has more than eight sub-entries and / or a count that the mapping-count type
+ * would never accept because it does not come through it: a constant (EDS default) or a plain UNSIGNED8 count of 8, 9, 16 or 64 over 8, 9, 16 or 64 mapping
+ * entries of 1 or 8 bits each (sixteen 1-bit signals fit a frame, nine bytes do not).  codes >= WIDE0 select these worlds ---- */
+#define WIDE0 1000000L
+#define NWIDE (2 * 2 * 3 * 4 * 4 * 2)
+static uint32_t WMap[64]; static uint8_t WNum;
+static void configure_wide(long code, char *desc, size_t n)
+{
+    static const int CNT[] = { 8, 9, 16, 64 };
+    long c = code - WIDE0; int rx = (int)(c % 2), sync = (int)(c / 2 % 2), numkind = (int)(c / 4 % 3), count = CNT[c / 12 % 4], entries = CNT[c / 48 % 4], bits = (c / 192 % 2) ? 8 : 1;
+    nc_defaults();
+    NC.sync = 1; NC.sync_id = 0x80; NC.emcy = 1; NC.emcy_id = 0x81; NC.hbprod = 1; NC.hb_time = 2; NC.sdo_srv = 1;
+    NC.n_rpdo = 2; NC.n_tpdo = 2;
+    NC.rpdo[0].present = 1; NC.rpdo[0].cobid = 0x201; NC.rpdo[0].type = (uint8_t)(sync ? 1 : 255); NC.rpdo[0].nmap = 2; NC.rpdo[0].map[0] = NC_MAP(0x2110, 0, 8); NC.rpdo[0].map[1] = NC_MAP(0x0006, 0, 16);
+    NC.tpdo[0].present = 1; NC.tpdo[0].cobid = 0x40000181u; NC.tpdo[0].type = (uint8_t)(sync ? 1 : 254); NC.tpdo[0].event = 2; NC.tpdo[0].inhibit = 10; NC.tpdo[0].nmap = 2; NC.tpdo[0].map[0] = NC_MAP(0x2100, 0, 8); NC.tpdo[0].map[1] = NC_MAP(0x2102, 0, 24);
+    nc_prepare();
+    {
+        OdB b; uint16_t base = rx ? 0x1600 : 0x1A00;
+        b.root = OD; b.cap = NC_OD_MAX; b.used = 0; while (b.used < NC_OD_MAX && OD[b.used].Key) b.used++;
+        WNum = (uint8_t)count;
+        if (numkind == 0) od_add(&b, CO_KEY(base, 0, CO_OBJ_____RW), CO_TPDO_NUM, (CO_DATA)&WNum);
+        else if (numkind == 1) od_add(&b, CO_KEY(base, 0, CO_OBJ_D___R_), CO_TUNSIGNED8, (CO_DATA)(uintptr_t)count);
+        else od_add(&b, CO_KEY(base, 0, CO_OBJ_____RW), CO_TUNSIGNED8, (CO_DATA)&WNum);
+        for (int k = 0; k < entries; k++) { WMap[k] = NC_MAP(0x2113, 1 + k % 8, bits); od_add(&b, CO_KEY(base, 1 + k, CO_OBJ_____RW), CO_TPDO_MAP, (CO_DATA)&WMap[k]); }
+        W_REG(WMap); W_REG(WNum);
+    }
+    nc_start();
+    snprintf(desc, n, "%s 0 (%s): mapping count %d as %s, %d mapping entries of %d bit", rx ? "RPDO" : "TPDO", sync ? "synchronous" : "asynchronous", count,
+             numkind == 0 ? "mapping-count type" : numkind == 1 ? "constant" : "plain UNSIGNED8", entries, bits);
+}
+
 #define NEV 58
 static void sdo(uint8_t c, uint16_t idx, uint8_t sub, uint32_t v, uint8_t dlc)
 {
@@ -89,8 +120,8 @@ static void one_subset(long code, int only_e1, int only_e2)
 {
     char desc[200], smp[260];
     w_regions_clear();
-    configure(code, desc, sizeof desc);
-    nc_build();
+    if (code >= WIDE0) configure_wide(code, desc, sizeof desc);
+    else { configure(code, desc, sizeof desc); nc_build(); }
     size_t n = w_snap_size();
     if (n > snapcap) { free(snap0); free(snap1); free(snap2); snap0 = malloc(n); snap1 = malloc(n); snap2 = malloc(n); snapcap = n; }
     w_save(snap0);
@@ -129,13 +160,14 @@ static void run_cfg(int cfg, int tier)
 {
     long total = n_subsets(); int nshard = 16;
     g_depth3 = tier;                                              /* thorough: every sequence of <= 3 events */
+    if (cfg >= 16) { g_depth3 = 1; for (long w = cfg - 16; w < NWIDE && !mc_deadline_hit(); w += 4) one_subset(WIDE0 + w, -1, -2); return; }
     for (long code = cfg; code < total && !mc_deadline_hit(); code += nshard) one_subset(code, -1, -2);
 }
 static void run_case(const int *c, int n)
 {
     if (n < 4) return;
     if (n >= 5) {                 /* three events: replay them directly */
-        char desc[200]; w_regions_clear(); configure(c[1], desc, sizeof desc); nc_build(); w_obs_clear();
+        char desc[200]; w_regions_clear(); if (c[1] >= WIDE0) configure_wide(c[1], desc, sizeof desc); else { configure(c[1], desc, sizeof desc); nc_build(); } w_obs_clear();
         mc_case(4, c[1], c[2], c[3], c[4]);
         apply(c[2]); apply(c[3]); w_obs_clear(); apply(c[4]);
         if (safety()) mc_fail(safety(), "dictionary {%s}, events %d,%d,%d", desc, c[2], c[3], c[4]);
@@ -144,6 +176,6 @@ static void run_case(const int *c, int n)
     }
     one_subset(c[1], c[2], c[3]);
 }
-static const char *cfg_name(int c) { static char b[32]; snprintf(b, sizeof b, "shard %d/16", c); return b; }
-static const mc_enum E = { "C01", "c01sub", 16, cfg_name, run_cfg, run_case };
+static const char *cfg_name(int c) { static char b[48]; if (c >= 16) snprintf(b, sizeof b, "wide mapping records, shard %d/4", c - 16); else snprintf(b, sizeof b, "shard %d/16", c); return b; }
+static const mc_enum E = { "C01", "c01sub", 20, cfg_name, run_cfg, run_case };
 int main(int argc, char **argv) { return mc_enum_main(argc, argv, &E); }
